@@ -59,6 +59,8 @@ def run(prog: Program, rep: Report, tier: str) -> None:
     rep.rule("R7.2", "no memory between datagrams: nothing reachable from datagram_received stores to the protocol, the bridge, a module or any object that outlives the call (only fields of freshly built objects are written)", 2)
     rep.rule("R7.3", "receiving never stops the listener: no transport close/abort and no bridge stop is reachable from datagram_received/error_received/connection_lost; the only transport close in the package is SwitcherBridge.stop; no try/except around the hand-off turns an error into a shutdown", 3)
     rep.rule("R7.5", "every valid broadcast is delivered: for each device type with a not-ON normalisation, the not-ON paths of the builder reach the callback without examining the bytes of the fields that are reported as zero in that state (junk there is still a valid broadcast)", 6)
+    rep.rule("R7.6", "no deferred delivery loop that one error can end: if a coroutine of the bridge module is scheduled as a task (create_task / ensure_future) and calls the device builder or the user's callback "
+                     "inside a loop, the call is enclosed - inside that loop - by a try whose handler catches Exception; otherwise one corrupted datagram or raising callback ends the task and every later delivery, on all ports, is lost", 0, structural=True)
     rep.rule("R7.4", "one protocol object and one transport per port, each bound to partial(_parse_device_from_datagram, <the user's callback>)", 1)
     rep.explanation = (
         "Decides four structural necessary conditions (one synchronous hand-off per datagram; no state carried between datagrams; nothing on the receive path closes a transport; "
@@ -70,6 +72,7 @@ def run(prog: Program, rep: Report, tier: str) -> None:
                     "C05 R5.4 / C06: exactly one callback per accepted datagram, none for rejected ones"]
     ci = prog.cls("aioswitcher.bridge:UdpClientProtocol")
     funcs: Set[str] = set()
+    consumer_loop_rule(prog, rep)
     # ---- R7.1
     fi = ci.find_method("datagram_received")
     if fi is None:
@@ -172,19 +175,19 @@ def run(prog: Program, rep: Report, tier: str) -> None:
         for ce in cde:
             n_it += 1
             fac = ce.args[0] if ce.args else None
-            pv = None
-            if fac is not None and fac[0] == "lambda" and isinstance(fac[1].body, ast.Name):
-                pv = fac[4].get(fac[1].body.id)
-            elif fac is not None and fac[0] == "lambda" and isinstance(fac[1].body, ast.Call):
-                pv = ("fresh-per-call",)
-            if pv is None:
-                bad4 = "protocol factory does not return a protocol object of this iteration"
+            prod = B.factory_product(I3, o, fac)
+            if prod is None:
+                bad4 = f"what the protocol factory {T.show(fac)[:60] if fac else None} returns could not be established (it must produce a UdpClientProtocol per port)"
                 continue
-            if pv[0] == "obj":
-                od = o.state.heap[pv[1]].fields.get("_on_datagram")
-                if not (isinstance(od, tuple) and od[0] == "partialobj" and od[1][0] == "func" and od[1][1].qualname == "_parse_device_from_datagram" and od[2] == (("sym", "on_device", "callable"),)):
-                    bad4 = f"protocol handler is {T.show(od)[:80]}, not partial(_parse_device_from_datagram, self._on_device)"
-                protos.append(pv[1])
+            ho_, oid_, fresh_ = prod
+            if ho_.cls is None or ho_.cls.name != "UdpClientProtocol":
+                bad4 = f"protocol factory produces a {ho_.cls.name if ho_.cls else ho_.kind}, not a UdpClientProtocol"
+                continue
+            od = ho_.fields.get("_on_datagram")
+            if not B.handler_is_builder_bound_to_callback(od):
+                bad4 = f"protocol handler is {T.show(od)[:80]}, not partial(_parse_device_from_datagram, self._on_device)"
+            if not fresh_:
+                protos.append(oid_)
         if len(set(protos)) != len(protos):
             bad4 = "one protocol object is shared by several ports"
     rep.check(bad4 is None and n_it > 0, "R7.4", "protocol per port bound to the user callback", swhere, bad4 or "no endpoint creation explored", key="R7.4|protocol")
@@ -209,3 +212,58 @@ def run(prog: Program, rep: Report, tier: str) -> None:
         bad5 = c05.ignored_field_dependence(prog, spec, m, cat, want_cls[0], outs5, on)
         rep.check(bad5 is None, "R7.5", m, pwhere, bad5 or "", key=f"R7.5|{want_cls[0]}")
     rep.analysed["functions"] = sorted(funcs)
+
+
+def consumer_loop_rule(prog: Program, rep: Report) -> None:
+    """R7.6 (structural, conditional): coroutines scheduled as tasks that deliver inside an unguarded loop."""
+    import ast as _ast
+    mod = prog.module("aioswitcher.bridge")
+    byname = {}
+    for fi in mod.all_functions():
+        byname[fi.qualname.split(".")[-1]] = fi
+    deliver = {"_parse_device_from_datagram", "_on_device", "_on_datagram", "on_device", "device_callback"}
+    for fi in mod.all_functions():
+        for node in _ast.walk(fi.node):
+            if not (isinstance(node, _ast.Call) and isinstance(node.func, _ast.Attribute | _ast.Name)):
+                continue
+            fname = node.func.attr if isinstance(node.func, _ast.Attribute) else node.func.id
+            if fname not in ("create_task", "ensure_future") or not node.args or not isinstance(node.args[0], _ast.Call):
+                continue
+            cf = node.args[0].func
+            cname = cf.attr if isinstance(cf, _ast.Attribute) else cf.id if isinstance(cf, _ast.Name) else None
+            target = byname.get(cname or "")
+            if target is None or not target.is_async:
+                continue
+            where = f"{loc(target, target.node)} {target.qualname}"
+
+            def guarded(stack: list) -> bool:
+                # stack: ancestors of the call, innermost last; a Try between the innermost loop and the call whose handler catches Exception
+                seen_loop = False
+                for anc, field in reversed(stack):
+                    if isinstance(anc, (_ast.While, _ast.For, _ast.AsyncFor)):
+                        return False
+                    if isinstance(anc, _ast.Try) and field == "body":
+                        for h in anc.handlers:
+                            names = [] if h.type is None else [_ast.unparse(x) for x in (h.type.elts if isinstance(h.type, _ast.Tuple) else [h.type])]
+                            if h.type is None or any(n.split(".")[-1] in ("Exception", "BaseException") for n in names):
+                                return True
+                return False
+
+            def visit(n: _ast.AST, stack: list, in_loop: bool) -> None:
+                for field, value in _ast.iter_fields(n):
+                    children = value if isinstance(value, list) else [value]
+                    for ch in children:
+                        if not isinstance(ch, _ast.AST) or isinstance(ch, (_ast.FunctionDef, _ast.AsyncFunctionDef, _ast.Lambda, _ast.ClassDef)):
+                            continue
+                        loop_here = in_loop or isinstance(n, (_ast.While, _ast.For, _ast.AsyncFor)) and field == "body"
+                        if isinstance(ch, _ast.Call) and loop_here:
+                            f = ch.func
+                            nm = f.attr if isinstance(f, _ast.Attribute) else f.id if isinstance(f, _ast.Name) else ""
+                            if nm in deliver:
+                                ok = guarded(stack + [(n, field)])
+                                rep.check(ok, "R7.6", f"{target.qualname}: {nm} inside the task's loop", f"{mod.relpath}:{ch.lineno} {target.qualname}",
+                                          f"{target.qualname} is scheduled as a task by {fi.qualname} and calls {nm}() inside its loop without a try/except Exception around it (inside the loop): "
+                                          f"the first datagram that makes the builder or the user's callback raise ends the task, and no later broadcast on any port is delivered", key=f"R7.6|{target.qualname}|{nm}")
+                        visit(ch, stack + [(n, field)], loop_here)
+
+            visit(target.node, [], False)
